@@ -83,10 +83,22 @@ def sign_rule(prog: Program, res: Result, short: str) -> None:
         if isinstance(n, ast.If) and isinstance(n.test, ast.Name) and n.test.id == "flipsign":
             flag_if = n
     if flag_if is None:
-        if "flipsign" in fi.params():
-            res.bad("EIG-sign", short, desc, prog.loc(fi), "the flipsign parameter no longer guards any sign normalisation")
+        # guard-clause form:  if not flipsign: return v   ...normalisation...   return v
+        body = fi.node.body
+        for i, st in enumerate(body):
+            if isinstance(st, ast.If) and isinstance(st.test, ast.UnaryOp) and isinstance(st.test.op, ast.Not) and isinstance(st.test.operand, ast.Name) \
+                    and st.test.operand.id == "flipsign" and st.body and isinstance(st.body[-1], ast.Return) and not st.orelse:
+                flag_if = ast.If(test=ast.Name(id="flipsign", ctx=ast.Load()), body=body[i + 1:], orelse=[])
+                ast.copy_location(flag_if, st)
+                for x in ast.walk(flag_if):
+                    if not hasattr(x, "lineno"):
+                        ast.copy_location(x, st)
+    if flag_if is None:
+        used = any(isinstance(x, ast.Name) and x.id == "flipsign" for x in ast.walk(fi.node))
+        if "flipsign" in fi.params() and not used:
+            res.bad("EIG-sign", short, desc, prog.loc(fi), "the flipsign parameter is no longer used: no sign normalisation is applied")
         else:
-            res.undecided("EIG-sign", short, desc, prog.loc(fi), "no flipsign parameter")
+            res.undecided("EIG-sign", short, desc, prog.loc(fi), "sign normalisation region not recognised")
         return
     problems, facts = [], 0
     vec = None
@@ -142,6 +154,43 @@ def sign_rule(prog: Program, res: Result, short: str) -> None:
                         problems.append(f"flip target `{ast.unparse(s.target)}` is not column i (v[:, i])")
                     if const(s.value) != -1:
                         problems.append(f"flip multiplies by {ast.unparse(s.value)}, not -1")
+    if not (found_test and found_flip):
+        # vectorised form: mask = v[pivot_rows, arange(ncols)] < 0 ; v[:, mask] *= -1  (or  = -v[:, mask])
+        masks = {}
+        for st in flag_if.body:
+            for n in ast.walk(st):
+                if isinstance(n, ast.Assign) and len(n.targets) == 1 and isinstance(n.targets[0], ast.Name) and isinstance(n.value, ast.Compare) \
+                        and len(n.value.ops) == 1 and isinstance(n.value.left, ast.Subscript):
+                    l, op, r = n.value.left, n.value.ops[0], n.value.comparators[0]
+                    sl = l.slice
+                    if isinstance(sl, ast.Tuple) and len(sl.elts) == 2 and isinstance(l.value, ast.Name) and (vec is None or l.value.id == vec):
+                        rows_, cols_ = sl.elts
+                        col_range = isinstance(cols_, ast.Call) and (dotted(cols_.func) or "").split(".")[-1] in ("arange", "range")
+                        row_pivot = isinstance(rows_, ast.Name)
+                        if row_pivot and col_range:
+                            found_test = True
+                            facts += 1
+                            if not (isinstance(op, ast.Lt) and const(r) == 0):
+                                problems.append(f"flip condition is `{ast.unparse(n.value)}`, not `< 0`")
+                            masks[n.targets[0].id] = n
+                        elif isinstance(cols_, ast.Name) and isinstance(rows_, ast.Call):
+                            problems.append("tested entries are (i, pivot): row/column swapped")
+        for st in flag_if.body:
+            for n in ast.walk(st):
+                tgt = val = None
+                if isinstance(n, ast.AugAssign) and isinstance(n.op, ast.Mult):
+                    tgt, val = n.target, n.value
+                elif isinstance(n, ast.Assign) and len(n.targets) == 1 and isinstance(n.value, ast.UnaryOp) and isinstance(n.value.op, ast.USub) \
+                        and ast.unparse(n.value.operand) == ast.unparse(n.targets[0]):
+                    tgt, val = n.targets[0], ast.Constant(value=-1)
+                if isinstance(tgt, ast.Subscript) and isinstance(tgt.slice, ast.Tuple) and len(tgt.slice.elts) == 2 \
+                        and isinstance(tgt.slice.elts[1], ast.Name) and tgt.slice.elts[1].id in masks:
+                    found_flip = True
+                    facts += 1
+                    if not (isinstance(tgt.slice.elts[0], ast.Slice) and tgt.slice.elts[0].lower is None and tgt.slice.elts[0].upper is None):
+                        problems.append(f"flip target `{ast.unparse(tgt)}` is not whole columns (v[:, mask])")
+                    if const(val) != -1:
+                        problems.append(f"flip multiplies by {ast.unparse(val)}, not -1")
     if problems:
         res.bad("EIG-sign", short, desc, prog.loc(fi, flag_if), "; ".join(problems))
     elif found_test and found_flip:
@@ -151,23 +200,35 @@ def sign_rule(prog: Program, res: Result, short: str) -> None:
 
 
 def branch_cond(prog: Program, short: str):
-    """Normalised text of the test that selects the iterative solver."""
+    """Normalised form of the test under which the iterative solver is chosen: (left, comparator, offset)."""
     fi = prog.func(short)
     for n in ast.walk(fi.node):
         if isinstance(n, ast.If):
-            has_iter = any(isinstance(c, ast.Call) and (dotted(c.func) or "").split(".")[-1] in eigen.ITERATIVE
-                           for st in n.body for c in ast.walk(st))
-            if has_iter and isinstance(n.test, ast.Compare) and len(n.test.ops) == 1:
-                t = n.test
-                # r < y.shape[0] - 1  -> ('r', '<', 'size-1')
-                right = t.comparators[0]
+            in_body = any(isinstance(c, ast.Call) and (dotted(c.func) or "").split(".")[-1] in eigen.ITERATIVE
+                          for st in n.body for c in ast.walk(st))
+            in_else = any(isinstance(c, ast.Call) and (dotted(c.func) or "").split(".")[-1] in eigen.ITERATIVE
+                          for st in n.orelse for c in ast.walk(st))
+            if not (in_body or in_else) or (in_body and in_else):
+                continue
+            t = fi.resolve(n.test)          # a named condition (use_iterative = r < size - 1) reads like the comparison itself
+            negated = in_else
+            while isinstance(t, ast.UnaryOp) and isinstance(t.op, ast.Not):
+                t = t.operand
+                negated = not negated
+            if isinstance(t, ast.Compare) and len(t.ops) == 1:
+                op = type(t.ops[0])
+                left, right = t.left, t.comparators[0]
+                if negated:
+                    op = {ast.Lt: ast.GtE, ast.LtE: ast.Gt, ast.Gt: ast.LtE, ast.GtE: ast.Lt}.get(op, op)
+                if op in (ast.Gt, ast.GtE):     # size - 1 > r  ->  r < size - 1
+                    left, right = right, left
+                    op = ast.Lt if op is ast.Gt else ast.LtE
                 off = None
                 if isinstance(right, ast.BinOp) and isinstance(right.op, ast.Sub):
                     off = const(right.right)
-                elif isinstance(right, ast.Subscript) or isinstance(right, ast.Attribute):
+                elif isinstance(right, (ast.Subscript, ast.Attribute)):
                     off = 0
-                left = ast.unparse(t.left)
-                return (left, type(t.ops[0]).__name__, off), n
+                return (ast.unparse(left), op.__name__, off), n
     return None, None
 
 
